@@ -219,10 +219,14 @@ pub fn run(ctx: &Ctx) -> Report {
             rep.stats.class_n("mappings re-written by 8 child processes", all.len() as u64);
         }
     }
+    super::scale::run(&mut rep, ctx, "C14");
     rep
 }
 
 pub fn replay(stage: &str, case: &Value) -> Check {
+    if stage == "scale" {
+        return super::scale::replay(case);
+    }
     let mut st = Stats::new();
     let bytes = match stage {
         "ast" => {
